@@ -152,7 +152,7 @@ fn body(ch: &Chooser, cfg: &Cfg) -> Outcome {
     };
     if let Expect::Reject(why) = expect {
         return Err(Violation::new(
-            format!("stage=write field={why} shape={shape} symptom=accepted-value-that-does-not-fit"),
+            format!("stage=write field={why} symptom=accepted-value-that-does-not-fit"),
             describe(),
             format!("Err ({why})"),
             format!("Ok, {} bytes written", bytes.len()),
